@@ -27,6 +27,8 @@ pub enum Ev {
 	/// commit of live transaction #i (index into the live list, oldest first) writing key set
 	/// (bit0 = a, bit1 = b); `fail` = the memtable apply fails after publish (oracle rollback)
 	Commit(u8, u8, bool),
+	/// commit of live transaction #i on the key set whose commit-log write fails (store part only)
+	CommitWalFail(u8, u8),
 	Abort(u8),
 	/// a read-only observer at the current horizon begins / ends (affects only the watermark)
 	Pin,
@@ -37,6 +39,7 @@ fn ev_str(e: &Ev) -> String {
 	match e {
 		Ev::Begin => "begin".into(),
 		Ev::Commit(i, k, f) => format!("commit#{i}{{{}}}{}", ["", "a", "b", "a,b"][*k as usize], if *f { "!apply-fails" } else { "" }),
+		Ev::CommitWalFail(i, k) => format!("commit#{i}{{{}}}!wal-write-fails", ["", "a", "b", "a,b"][*k as usize]),
 		Ev::Abort(i) => format!("abort#{i}"),
 		Ev::Pin => "pin".into(),
 		Ev::Unpin => "unpin".into(),
@@ -101,6 +104,7 @@ fn run_oracle(events: &[Ev]) -> Option<(String, String)> {
 			Ev::Abort(i) => {
 				live.remove(*i as usize);
 			}
+			Ev::CommitWalFail(..) => return Some(("machinery".into(), "the oracle part does not take commit-log failures".into())),
 			Ev::Commit(i, mask, apply_fails) => {
 				let t = live.remove(*i as usize);
 				let keys = keyset(*mask);
@@ -193,7 +197,12 @@ fn run_store(events: &[Ev], opt: &OptSet) -> Result<Option<(String, String)>, St
 				let (mut t, _) = live.remove(*i as usize);
 				t.rollback();
 			}
-			Ev::Commit(i, mask, apply_fails) => {
+			Ev::Commit(..) | Ev::CommitWalFail(..) => {
+				let (i, mask, apply_fails, wal_fails) = match e {
+					Ev::Commit(i, m, f) => (i, m, f, false),
+					Ev::CommitWalFail(i, m) => (i, m, &false, true),
+					_ => unreachable!(),
+				};
 				let (mut t, start) = live.remove(*i as usize);
 				t.set_durability(Durability::Eventual);
 				let val = format!("v{step}").into_bytes();
@@ -207,12 +216,20 @@ fn run_store(events: &[Ev], opt: &OptSet) -> Result<Option<(String, String)>, St
 						persistent: false,
 					}));
 				}
+				if wal_fails {
+					surrealkv::verif::arm_fail_point(Some(surrealkv::verif::FailSpec {
+						point: "commit.wal",
+						nth: 1,
+						persistent: false,
+					}));
+				}
 				let r = match poll_now(t.commit()) {
 					Polled::Ready(r) => r,
 					Polled::WouldBlock => return Err("commit would block".into()),
 				};
 				surrealkv::verif::arm_fail_point(None);
 				let conflict = model.real_conflict(start, *mask);
+				let apply_fails = &(*apply_fails || wal_fails);
 				match r {
 					Ok(()) => {
 						if *apply_fails {
@@ -263,47 +280,55 @@ fn run_store(events: &[Ev], opt: &OptSet) -> Result<Option<(String, String)>, St
 
 /// All event lists of exactly `len` events with at most `max_live` transactions live at once and
 /// at most `max_txn` transactions in total.
-fn gen(len: usize, max_live: usize, max_txn: usize, with_fail: bool, with_pins: bool) -> Vec<Vec<Ev>> {
+fn gen(len: usize, max_live: usize, max_txn: usize, with_fail: bool, with_pins: bool, store_failures: bool) -> Vec<Vec<Ev>> {
 	let mut out = vec![];
 	#[allow(clippy::too_many_arguments)]
-	fn rec(len: usize, max_live: usize, max_txn: usize, with_fail: bool, with_pins: bool, live: usize, begun: usize, pins: usize, cur: &mut Vec<Ev>, out: &mut Vec<Vec<Ev>>) {
+	fn rec(len: usize, max_live: usize, max_txn: usize, with_fail: bool, with_pins: bool, store_failures: bool, live: usize, begun: usize, pins: usize, cur: &mut Vec<Ev>, out: &mut Vec<Vec<Ev>>) {
 		if cur.len() == len {
 			out.push(cur.clone());
 			return;
 		}
 		if live < max_live && begun < max_txn {
 			cur.push(Ev::Begin);
-			rec(len, max_live, max_txn, with_fail, with_pins, live + 1, begun + 1, pins, cur, out);
+			rec(len, max_live, max_txn, with_fail, with_pins, store_failures, live + 1, begun + 1, pins, cur, out);
 			cur.pop();
 		}
 		for i in 0..live {
 			for mask in 1..=3u8 {
 				for fail in [false, true] {
-					if fail && (!with_fail || mask == 3) {
+					if fail && (!with_fail || (mask == 3 && !store_failures)) {
 						continue;
 					}
 					cur.push(Ev::Commit(i as u8, mask, fail));
-					rec(len, max_live, max_txn, with_fail, with_pins, live - 1, begun, pins, cur, out);
+					rec(len, max_live, max_txn, with_fail, with_pins, store_failures, live - 1, begun, pins, cur, out);
+					cur.pop();
+				}
+			}
+			if store_failures && with_fail {
+				// a failing commit-log write: on the two-key batch and on one single-key batch
+				for mask in [3u8, 1] {
+					cur.push(Ev::CommitWalFail(i as u8, mask));
+					rec(len, max_live, max_txn, with_fail, with_pins, store_failures, live - 1, begun, pins, cur, out);
 					cur.pop();
 				}
 			}
 			cur.push(Ev::Abort(i as u8));
-			rec(len, max_live, max_txn, with_fail, with_pins, live - 1, begun, pins, cur, out);
+			rec(len, max_live, max_txn, with_fail, with_pins, store_failures, live - 1, begun, pins, cur, out);
 			cur.pop();
 		}
 		if with_pins {
 			if pins < 1 {
 				cur.push(Ev::Pin);
-				rec(len, max_live, max_txn, with_fail, with_pins, live, begun, pins + 1, cur, out);
+				rec(len, max_live, max_txn, with_fail, with_pins, store_failures, live, begun, pins + 1, cur, out);
 				cur.pop();
 			} else {
 				cur.push(Ev::Unpin);
-				rec(len, max_live, max_txn, with_fail, with_pins, live, begun, pins - 1, cur, out);
+				rec(len, max_live, max_txn, with_fail, with_pins, store_failures, live, begun, pins - 1, cur, out);
 				cur.pop();
 			}
 		}
 	}
-	rec(len, max_live, max_txn, with_fail, with_pins, 0, 0, 0, &mut vec![], &mut out);
+	rec(len, max_live, max_txn, with_fail, with_pins, store_failures, 0, 0, 0, &mut vec![], &mut out);
 	out
 }
 
@@ -311,7 +336,7 @@ fn replay_json(part: &str, gc: u32, evs: &[Ev]) -> J {
 	json!({"engine": "c04", "part": part, "gc_interval": gc,
 		"events": evs.iter().map(|e| match e {
 			Ev::Begin => json!("begin"), Ev::Pin => json!("pin"), Ev::Unpin => json!("unpin"),
-			Ev::Abort(i) => json!({"abort": i}), Ev::Commit(i, k, f) => json!({"commit": [i, k, f]}),
+			Ev::Abort(i) => json!({"abort": i}), Ev::Commit(i, k, f) => json!({"commit": [i, k, f]}), Ev::CommitWalFail(i, k) => json!({"commit_wal_fail": [i, k]}),
 		}).collect::<Vec<_>>()})
 }
 
@@ -328,6 +353,8 @@ fn events_from_json(j: &J) -> Vec<Ev> {
 			o => {
 				if let Some(a) = o.get("abort") {
 					Ev::Abort(a.as_u64().unwrap() as u8)
+				} else if let Some(c) = o.get("commit_wal_fail") {
+					Ev::CommitWalFail(c[0].as_u64().unwrap() as u8, c[1].as_u64().unwrap() as u8)
 				} else {
 					let c = &o["commit"];
 					Ev::Commit(c[0].as_u64().unwrap() as u8, c[1].as_u64().unwrap() as u8, c[2].as_bool().unwrap())
@@ -358,7 +385,7 @@ pub fn check(tier: Tier) -> i32 {
 				completed.push(format!("oracle: gc_interval={gc}: stopped before len={len} (time share used)"));
 				break 'a;
 			}
-			let lists = gen(len, 3, 4, true, true);
+			let lists = gen(len, 3, 4, true, true, false);
 			let found: Mutex<Vec<(usize, String, String)>> = Mutex::new(vec![]);
 			lists.par_iter().enumerate().for_each(|(i, l)| {
 				let r = crate::util::guarded(|| run_oracle(l)).unwrap_or_else(|p| Some((format!("panic:{}", crate::props::norm_msg(&p)), p)));
@@ -388,7 +415,7 @@ pub fn check(tier: Tier) -> i32 {
 				completed.push(format!("store: gc_interval={gc}: stopped before len={len} (time cap)"));
 				break 'b;
 			}
-			let lists = gen(len, 3, 4, true, true);
+			let lists = gen(len, 3, 4, true, true, true);
 			let found: Mutex<Vec<(usize, String, String)>> = Mutex::new(vec![]);
 			lists.par_iter().enumerate().for_each(|(i, l)| {
 				let r = crate::util::guarded(|| run_store(l, &opt));
